@@ -6,7 +6,7 @@ ENTRY = {
             "a single node, a 3-node cluster, a node whose only peer is down, a node whose only peer is the harness's fault-injected peer (answers /healthz; fails /fragment as told), "
             "a node whose loader failed, and fresh nodes whose loader is gated (not-ready window; late load). Cases = one HTTP request through http_client each: "
             "10% not-ready nodes (/sql with every mode/format/body kind incl. oversized, empty, non-UTF-8; /fragment), 10% malformed requests on ready nodes, 20% the no-fallback rule "
-            "(peer returns HTTP 500/503, garbage, closes, body cut with full or consistent Content-Length), 60% membership state x mode spelling x format x 13 statements "
+            "(peer returns HTTP 500/503, garbage, closes, body cut with full or consistent Content-Length), 20% view:unknown-peer (a quiet node whose membership view is written by the case: 1-3 configured peers never probed, absent or alive, alone or mixed with Up/Down peers; the model counts members with status Up only), 40% membership state x mode spelling x format x 13 statements "
             "(Concat/TwoPhase/TopN/gather shapes, empty results, constant select, unknown column/table, syntax error). Bodies are decoded (Arrow IPC reader, serde_json, RFC 4180 parser in the "
             "harness) and compared as bags with the same statement run in-process. non-trivial = a 200 answer, a not-ready node, or an active peer fault; distinct by sha256 of the case",
     "trusted_base": COMMON_TB + [
@@ -19,7 +19,8 @@ ENTRY = {
         "readiness of /sql is 'tables loaded' as in the code; NodeState::ready (discovery resolved, not draining) gates only /readyz",
     ],
     "min_tags": {"not-ready": 1, "node-L0": 1, "node-X": 1, "fault-active": 1, "dist-true": 1, "dist-false-off": 1, "dist-false-one-member": 1, "dist-false-plan-refused": 1,
-                 "fmt-arrow": 1, "fmt-json": 1, "fmt-csv": 1, "mode-bad": 1, "fmt-bad": 1, "status-503": 1, "status-501": 1, "rows-compared": 20, "path/fragment": 1},
+                 "fmt-arrow": 1, "fmt-json": 1, "fmt-csv": 1, "mode-bad": 1, "fmt-bad": 1, "status-503": 1, "status-501": 1, "rows-compared": 20, "path/fragment": 1,
+                 "view-unknown-peer": 36, "unk-absent": 5, "unk-alive": 5, "view-mixed": 5, "view-unknown-only": 5},
     "manifest": {
         "category": "proof",
         "text": "Lean theorems over the executable model of the SQL front door: a node whose tables are not loaded never answers /sql or /fragment (503); Auto distributes iff >= 2 members are up and "
